@@ -219,7 +219,7 @@ class SymVC:
                 if z3.is_rational_value(zb) or z3.is_int_value(zb):
                     if (zb.as_fraction() if z3.is_rational_value(zb) else zb.as_long()) != 0:
                         continue
-                if zb.get_id() in seen:
+                if S.eid(zb) in seen:
                     continue
                 seen.add(zb.get_id())
                 self.ensures(name, Sym(zb != 0))
@@ -362,7 +362,7 @@ class SymVC:
         alts = []
         seen = set()
         for t in cands:
-            if t.get_id() in seen:
+            if S.eid(t) in seen:
                 continue
             seen.add(t.get_id())
             try:
